@@ -10,20 +10,25 @@ export VERIF_DIR="$(pwd)"
 export GOFLAGS=-mod=mod GOPROXY=off GOSUMDB=off GOTOOLCHAIN=local CGO_ENABLED=1
 export GOCACHE="${VERIF_GOCACHE:-$VERIF_DIR/.gocache}"
 mkdir -p bin work evidence replays
+# every invocation links its own binaries (bin/run.<pid>/): invocations may run in parallel, with
+# different overlays, without overwriting a binary that another one is executing
+BINDIR="$VERIF_DIR/bin/run.$$"
+mkdir -p "$BINDIR"
+trap 'rm -rf "$BINDIR"' EXIT
 cp -f /repo/go.sum mc/go.sum 2>/dev/null || true
 OV=()
 if [ -n "${VERIF_OVERLAY:-}" ]; then OV=(-overlay "$VERIF_OVERLAY"); fi
 build() {
-  (cd mc && go build "${OV[@]}" -o ../bin/vmc . ) || { echo "BUILD FAILED (plain)" >&2; exit 3; }
+  (cd mc && go build "${OV[@]}" -o "$BINDIR/vmc" . ) || { echo "BUILD FAILED (plain)" >&2; exit 3; }
 }
 build_race() {
-  (cd mc && go build -race "${OV[@]}" -o ../bin/vmc-race . ) || { echo "BUILD FAILED (race)" >&2; exit 3; }
+  (cd mc && go build -race "${OV[@]}" -o "$BINDIR/vmc-race" . ) || { echo "BUILD FAILED (race)" >&2; exit 3; }
 }
 build_cover() {
-  (cd mc && go build -cover -coverpkg=github.com/emirpasic/gods/v2/...,verif/mc "${OV[@]}" -o ../bin/vmc-cover . ) || { echo "BUILD FAILED (cover)" >&2; exit 3; }
+  (cd mc && go build -cover -coverpkg=github.com/emirpasic/gods/v2/...,verif/mc "${OV[@]}" -o "$BINDIR/vmc-cover" . ) || { echo "BUILD FAILED (cover)" >&2; exit 3; }
 }
 case "${1:-}" in
-  replay) build; exec ./bin/vmc replay "$2" ;;
+  replay) build; "$BINDIR/vmc" replay "${2:?replay file}"; exit $? ;;
   build) build; build_race; build_cover; exit 0 ;;
   C*)
     prop="$1"; tier="${2:-${VERIF_TIER:-quick}}"
@@ -36,7 +41,7 @@ case "${1:-}" in
       export VERIF_COVERDIR="$VERIF_DIR/work/cov.$prop"
       rm -rf "$VERIF_COVERDIR"; mkdir -p "$VERIF_COVERDIR"
     fi
-    ./bin/vmc check "$prop" "$tier"; rc=$?
+    "$BINDIR/vmc" check "$prop" "$tier"; rc=$?
     [ -n "${VERIF_COVERDIR:-}" ] && rm -rf "$VERIF_COVERDIR"
     exit $rc ;;
   *) echo "usage: check.sh <Cnn> <quick|thorough> | replay <file> | build" >&2; exit 2 ;;
